@@ -335,6 +335,20 @@ impl FileServer for FileServerReal
 			return Ok(*handle);
 		}
 
+		// Names under the `<std>/` prefix only ever refer to the
+		// built-in library, never to the real filesystem
+		if util::is_std_path(filename)
+		{
+			report_error(
+				report,
+				span,
+				format!(
+					"file not found: `{}`",
+					filename));
+			
+			return Err(());
+		}
+
 		let filename_path = std::path::PathBuf::from(filename);
 
 		if !filename_path.exists()
